@@ -153,6 +153,7 @@ PLANS = {
             S("c12_connloss", 900, 27000),
             S("c12_resend", 900, 27000),
             S("c12_noretry", 700, 21000),
+            S("c12_latepeer", 500, 15000),  # request made before any replier is reachable, first copies ignored (scenarios/c12c_latepeer.cc)
             S("c12_mixed", 600, 18000),    # contexts with different resend times on one socket (scenarios/c12b_mixed.cc)
         ],
         "assumptions": [
